@@ -65,7 +65,10 @@ def midstep(p0: int, p1: int, p2: int, p3: int, actor: int, target: int, pn: int
     # 'sparse': the systems present at the start only run every other timestep, so in the timestep after the action only
     # systems registered mid-timestep are due
     sparse = hx.P.get('sparse', False)
-    ss = _queue(m, [p0, p1, p2, p3][:n], 2 if sparse else 1)
+    prios = [p0, p1, p2, p3][:n]
+    if 'prios' in hx.P:                      # a long queue with concrete priorities (ties among them); actor and target symbolic
+        prios = list(hx.P['prios'])
+    ss = _queue(m, prios, 2 if sparse else 1)
     before = list(m.systems.execution_queue)
     removed = []            # (system, position of the remover in `before`)
     added = []
@@ -115,7 +118,7 @@ def midstep(p0: int, p1: int, p2: int, p3: int, actor: int, target: int, pn: int
                     added.append(new)
                     regseq.append(new)
             else:
-                new = S("new" + tag, m, prio)
+                new = S("new" + tag, m, prio, hx.P.get('add_freq', 1))
                 m.systems.add_system(new)
                 added.append(new)
                 regseq.append(new)
@@ -196,7 +199,7 @@ def midstep(p0: int, p1: int, p2: int, p3: int, actor: int, target: int, pn: int
     if not hx.same_seq(log_second, due):
         return hx.end(hx.fail("next timestep is not a plain run of the queue", log=names(log_second),
                               queue=names(m.systems.execution_queue), one_call=multi))
-    want = [s for s in before if s not in removed and not sparse] + list(added)
+    want = [s for s in before if s not in removed and not sparse] + [s for s in added if (1 - s.start) % s.frequency == 0]
     if len(log_second) != len(want) or not all(any(x is y for y in log_second) for x in want):
         return hx.end(hx.fail("next timestep ran a different set of systems", log=names(log_second), exp=names(want)))
     q = m.systems.execution_queue
@@ -211,6 +214,16 @@ def midstep(p0: int, p1: int, p2: int, p3: int, actor: int, target: int, pn: int
                 return hx.end(hx.fail("equal-priority systems ran against their registration order in the next timestep",
                                       log=names(log_second), registered=names(regseq),
                                       priorities=[x.priority for x in log_second]))
+    if hx.P.get('add_freq', 1) > 1:
+        # systems registered mid-timestep with a frequency of their own keep to THEIR schedule from then on
+        mark = len(m.log)
+        m.execute()
+        third = list(m.log[mark:])
+        due3 = [x for x in m.systems.execution_queue if (2 - x.start) % x.frequency == 0]
+        if not hx.same_seq(third, due3):
+            return hx.end(hx.fail("third timestep: systems registered mid-timestep are off their schedule", log=names(third),
+                                  due=names(due3)))
+        return hx.end(m.timestep == 3)
     return hx.end(m.timestep == 2)
 
 
@@ -233,6 +246,8 @@ def obligations(tier):
     parts += [{"n": 2, "kinds": ks, "sparse": True} for ks in (["add"], ["replace"], ["add", "add"])]
     parts += [{"n": 2, "kinds": [k], "str_ids": True} for k in ("self", "remove", "replace")]
     parts += [{"n": 2, "kinds": [k], "own_cleanup": True} for k in ("remove", "replace")]
+    parts += [{"n": 2, "kinds": ["add"], "add_freq": 2}, {"n": 2, "kinds": ["add", "add"], "add_freq": 2}]
+    parts += [{"n": 17, "kinds": [k], "prios": [30, 20, 20, 20, 10, 10, 10, 10, 5, 5, 5, 0, 0, 0, -1, -1, -7]} for k in ("remove", "self")]
     parts += [{"n": 2, "kinds": ["add_taken"]}, {"n": 3, "kinds": ["add_taken"]}, {"n": 2, "kinds": ["remove", "add_taken"]}]
     if tier != "quick":
         parts += [{"n": 3, "kinds": ["remove", "add_taken"]}]
